@@ -140,6 +140,20 @@ def fn_text(src, name, nth=0, cfg_hint=None):
     return src[a:b]
 
 
+# classification of explicit panic sites, independent of the message text: by the function that contains
+# the site (and, inside macro bodies, by the guard it sits under). The message is only a fallback.
+PANIC_BY_FN = {
+    ("interface/injector.rs", "will_execute_raw"): 1,
+    ("interface/injector.rs", "will_return_async"): 1,
+    ("interface/injector.rs", "will_execute"): 1,
+    ("interface/injector.rs", "will_return_boolean"): 2,
+    ("injector_core/common.rs", "make_memory_writable_and_executable_linux"): 3,
+    ("injector_core/common.rs", "allocate_jit_memory_unix"): 4,
+    ("injector_core/patch_arm64.rs", "apply_branch_patch"): 5,
+    ("interface/verifier.rs", "drop"): 8,
+}
+
+
 def panic_kind(msg):
     for k, _n, sub in PANIC_KINDS:
         if sub in msg:
@@ -147,21 +161,44 @@ def panic_kind(msg):
     return 0
 
 
+def enclosing_fn(lines, i):
+    for j in range(i, -1, -1):
+        m = re.match(r"\s*(?:pub(?:\([a-z]+\))?\s+)?(?:const\s+)?(?:unsafe\s+)?(?:extern\s+\"[^\"]*\"\s+)?fn\s+(\w+)", lines[j])
+        if m:
+            return m.group(1)
+    return None
+
+
 def insert_panic_hooks(text, relpath, log):
     """T4: `crate::verif_rt::on_panic(kind, line);` immediately before every statement-position
-    `panic!(`. The panic itself stays."""
+    `panic!(`. The panic itself stays. kind 0 = unclassified (reported as undecided if reached)."""
     out = []
     lines = text.split("\n")
     for i, line in enumerate(lines):
         st = line.lstrip()
         if st.startswith("panic!("):
-            msg = st
-            if '"' not in msg and i + 1 < len(lines):
-                msg += lines[i + 1]
-            kind = panic_kind(msg)
+            fn = enclosing_fn(lines, i)
+            kind = PANIC_BY_FN.get((relpath, fn), 0)
+            if relpath == "injector_core/common.rs" and fn == "allocate_jit_memory_unix":
+                # the generic-architecture arm of the allocator comes second in the function
+                prev = [l for l in lines[max(0, i - 40):i] if "panic!(" in l and enclosing_fn(lines, i) == fn]
+                kind = 4 if not any(enclosing_fn(lines, k) == fn and "panic!(" in lines[k] for k in range(max(0, i - 60), i)) else 9
+            if kind == 0 and relpath == "interface/macros.rs":
+                # inside fake!: the over-call panic sits under the budget test, the argument panic under `else`
+                prevs = [l.strip() for l in lines[max(0, i - 2):i] if l.strip()]
+                p1 = prevs[-1] if prevs else ""
+                if re.search(r"prev\s*>=|>=\s*\$expected|is_err\(\)", p1):
+                    kind = 6
+                elif p1.startswith("} else") or p1 == "else {":
+                    kind = 7
+            if kind == 0:
+                msg = st
+                if '"' not in msg and i + 1 < len(lines):
+                    msg += lines[i + 1]
+                kind = panic_kind(msg)
             indent = line[: len(line) - len(st)]
             out.append("%scrate::verif_rt::on_panic(%d, %d);" % (indent, kind, i + 1))
-            log.append({"rule": "T4", "file": relpath, "line": i + 1, "kind": kind})
+            log.append({"rule": "T4", "file": relpath, "line": i + 1, "kind": kind, "fn": fn})
         out.append(line)
     return "\n".join(out)
 
